@@ -45,6 +45,7 @@ prop("C02",
      assumptions=[
          "decides which calls and allocator operations fall between the two timestamp reads; that the CPU/compiler does not move instructions across the fences of time/fence.rs is outside any source-level execution model",
          "allocation scripts: 6 scripts per site (5 sites), 14 code-path classes, sample sizes 1 and 2",
+         "also: allocation only before round 1/2/4 under automatic sample size (every shape, T in {1,2}); threads that perform no allocator operation at all next to threads that do (T in {2,3}, every proper subset, real threads): on real threads the position of a thread in the pool is read from its OS thread name, so every sample must carry the tally of the thread at its position",
      ],
      technique="bounded-exhaustive enumeration of allocation scripts per closure site on the real loop with a mock allocator behind the real AllocProfiler; trace-checking oracle comparing stored tallies with a reference tally of the logged timed operations",
      text="Every vector of allocation scripts (6^5) for generator / counter / benchmarked function / output destructor / input destructor is run on each of the 14 code-path classes; the oracle requires that between a thread's start and end reads only calls and their own allocator operations occur and that the tally stored for each sample equals the reference tally of exactly those operations.",
@@ -262,7 +263,8 @@ prop("C08",
      thorough=[{"engine": "L", "prop": "C08", "scenarios": loop_scenarios("thorough"), "timeout": 3000}],
      assumptions=[
          "T in {2,3}, 1-2 rounds; T=3 and multi-round harnesses are preemption-bounded as listed per scenario; larger T by 'randomised schedules' is not used (sampling)",
-         "one panic per run, at the first execution of a site on the caller or on a worker",
+         "one panic per run, at the first execution of a site on the caller or on a worker, or at its second execution in a later round",
+         "engine S slice (real threads, one schedule per case, supplementary): the clauses that do not depend on the schedule - per-position tallies by OS thread name for T in {2,3} with silent threads, one and two rounds - and the panic clause at T = 1",
      ],
      technique="loom DPOR of the real multi-threaded sample loop (bench_loop_threaded + pool + barrier facade + loom thread-locals); trace oracle over the global event order; deadlock detection for the panic clause",
      text="Every interleaving (within the listed preemption bounds) of T benchmark threads running the real sample loop is checked: in each round no start timestamp precedes another thread's last generation / counting / tally clear, no drop precedes another thread's end timestamp, each stored tally equals the thread's own timed operations, and a panic injected at any (thread, phase) ends the run with a panic on the caller and no deadlock.",
@@ -509,6 +511,8 @@ PROPS["C15"]["assumptions"] = [
     "function level: pairwise-exhaustive over the 11 option fields x 5 levels (interference among three or more fields at once only for single-level triples in thorough); 2^55 full assignments are not enumerable",
     "end to end (engine Z): benchmark + 3 nested group levels with all 16 set/unset patterns for sample_count and for sample_size, inherited threads / counters through groups and a plain module, x 17 runner sources (CLI flag, DIVAN_* variable, builder call, CLI over environment); observed through call counts, samples / iters, counter rows, thread branches; the three ignore flags on the ignore family",
     "automatic sample size with several threads is excluded from call-count prediction (clock readings depend on the schedule)",
+    "time options end to end: max_time / min_time / skip_ext_time as attribute (Duration, float seconds; benchmark and group level), --max-time / --min-time / --skip-ext-time (flag and =false), DIVAN_* variables, builder calls, CLI over environment; under the virtual clock a call costs a fixed number of ticks (an input of the costly generator 3000), so round counts follow exactly from the documented sampling rule (lib/zoo.py simulate)",
+    "every spelling of threads (bool, integer, literal array, range, vec!, [] , [0, N]), of counters (bytes_count.., counter = X, counters = [..]) and of ignore (option, #[ignore], #[ignore = \"reason\"]); per-input counters of all four kinds; the pairwise feature family (every compatible pair of 21 item features)",
 ]
 PROPS["C16"]["quick"].append({"engine": "Z", "prop": "C16"})
 PROPS["C16"]["thorough"].append({"engine": "Z", "prop": "C16", "zoo_tier": "thorough"})
